@@ -1,6 +1,6 @@
 (* S-expression wiring of the rexpy model for the extracted runner. *)
 From Coq Require Import ZArith List Bool.
-From Tdda Require Import Base.Sexp Base.Str Generated.Consts Rexpy.Chars Rexpy.Pipeline.
+From Tdda Require Import Base.Sexp Base.Str Generated.Consts Rexpy.Chars Rexpy.Pipeline Rexpy.OracleCheck.
 Import ListNotations.
 Open Scope Z_scope.
 
@@ -65,3 +65,11 @@ Definition batch_entry (s : sexp) : sexp :=
          (batch_extract py_chartab o (sx_str (sx_nth 1 s)) (sx_bool (sx_nth 2 s))
                         (map sx_grow (sx_list (sx_nth 3 s)))
                         {| ex_strings := sx_strs (sx_nth 4 s); ex_freqs := map sx_Z (sx_list (sx_nth 5 s)) |}).
+
+(* (opts extras stripped groups strings) -> does every recorded split of the working examples satisfy the
+   hypotheses of the coverage theorem (groups concatenate to the example, each group meets its coarse fragment)? *)
+Definition oracle_entry (s : sexp) : sexp :=
+  let o := sx_ropts (sx_nth 0 s) in
+  of_bool (batch_oracle_okb py_chartab o (sx_str (sx_nth 1 s)) (sx_bool (sx_nth 2 s))
+                            (map sx_grow (sx_list (sx_nth 3 s)))
+                            {| ex_strings := sx_strs (sx_nth 4 s); ex_freqs := [] |}).
